@@ -100,6 +100,21 @@ static void variant_become_special() {
       s.expect((v.get<TB>() != nullptr) == (valid && target == 2) && (v.get<int>() != nullptr) == (valid && target == 0), "model:Variant.get", fmt("holding alternative %d, Become(%d, 7): get<T>() disagrees with index()", from, target));
     }
     s.end(); }
+  { s.begin("assign-from-own-element");
+    { V v(TA(42)); v = *v.get<TA>(); vchk(s, v, 0, "Variant after v = *v.get<A>()"); s.expect(v.get<TA>() && v.get<TA>()->v == 42 && g_live.size() == 1, "model:Variant.value", "after v = *v.get<A>() the Variant does not hold A(42) alone");
+      v = std::move(*v.get<TA>()); vchk(s, v, 0, "Variant after v = std::move(*v.get<A>())"); s.expect(v.get<TA>() && v.get<TA>()->v == 42 && g_live.size() == 1, "model:Variant.value", "after v = std::move(*v.get<A>()) the value changed"); }
+    { V v(std::string(100, 'q')); v = *v.get<std::string>(); s.expect(v.index() == 3 && *v.get<std::string>() == std::string(100, 'q'), "model:Variant.value", "after v = *v.get<string>() the string changed"); }
+    s.end(); }
+  // copies of Variants that have a bool alternative, from const and non-const lvalues and rvalues (a Variant must not be mistaken for a value of an alternative)
+  { s.begin("copies-with-a-bool-alternative");
+    { using VB = nop::Variant<int, bool, std::string, TA>;
+      VB src(std::string("verbose")); const VB& csrc = src;
+      VB a(src); VB b(csrc); VB c(VB(std::string("verbose"))); VB d; d = csrc; VB e; e = VB(std::string("verbose"));
+      for (const VB* x : {&a, &b, &c, &d, &e}) s.expect(x->index() == 2 && x->get<std::string>() && *x->get<std::string>() == "verbose", "model:Variant.copy", fmt("a copy of Variant<int,bool,string,A> holding a string has index() %d", x->index()));
+      VB t(TA(9)); VB t2(t); s.expect(t2.index() == 3 && t2.get<TA>() && t2.get<TA>()->v == 9 && g_live.size() == 2, "model:Variant.copy", fmt("copy (from a non-const lvalue) of a Variant<int,bool,string,A> holding A has index() %d", t2.index()));
+      VB em; VB em2(em); s.expect(em2.empty(), "model:Variant.copy", fmt("copy (from a non-const lvalue) of an empty Variant<int,bool,string,A> has index() %d", em2.index()));
+      VB bt(true); VB bt2(bt); s.expect(bt2.index() == 1 && *bt2.get<bool>() == true, "model:Variant.copy", "copy of a Variant holding bool true"); VB bf(false); VB bf2(bf); s.expect(bf2.index() == 1 && *bf2.get<bool>() == false, "model:Variant.copy", "copy of a Variant holding bool false is not bool false"); }
+    s.end(); }
   // get<T>() / is<T>() with T spelled with another cv-qualification than the declaration: "a read-only pointer to the string, if that is what it holds"
   { s.begin("get-with-cv-spelling");
     { nop::Variant<int, std::string, TA> v(std::string("text")); const auto& cv = v;
@@ -260,6 +275,18 @@ static void optional_special() {
   optional_decode_special(s);
   void_result_pairs<nop::Result<E, void>, E>(s, "Result<E,void>", E::None, E::X, E::Y);
   void_result_pairs<nop::Status<void>, nop::ErrorStatus>(s, "Status<void>", nop::ErrorStatus::None, nop::ErrorStatus::IOError, nop::ErrorStatus::ReadLimitReached);
+  // assignment from a reference to the object's own element (r = r.get(), a helper Store(&r, r.get()), o = std::move(o.get())): the element the
+  // argument refers to must not be destroyed before it is read
+  { s.begin("assign-from-own-element");
+    { R r(TA(42)); r = r.get(); rchk(s, r, 2, "Result after r = r.get()"); s.expect(r.get().v == 42 && g_live.size() == 1, "model:Result.value", fmt("after r = r.get() the Result holds %d (%zu elements alive), expected 42", r.has_value() ? r.get().v : -1, g_live.size()));
+      r = std::move(r.get()); rchk(s, r, 2, "Result after r = std::move(r.get())"); s.expect(r.get().v == 42 && g_live.size() == 1, "model:Result.value", fmt("after r = std::move(r.get()) the Result holds %d, expected 42", r.has_value() ? r.get().v : -1));
+      const TA& alias = r.get(); r = alias; s.expect(r.has_value() && r.get().v == 42, "model:Result.value", "after r = (const T& alias of its own value) the value changed"); }
+    { ST st(TA(41)); st = st.get(); rchk(s, st, 2, "Status after st = st.get()"); s.expect(st.get().v == 41 && g_live.size() == 1, "model:Result.value", "after st = st.get() the Status<T> does not hold its value"); }
+    { O o(TA(43)); o = o.get(); ochk(s, o, true, "Optional after o = o.get()"); s.expect(o.get().v == 43 && g_live.size() == 1, "model:Optional.value", fmt("after o = o.get() the Optional holds %d, expected 43", o.get().v));
+      o = std::move(o.get()); ochk(s, o, true, "Optional after o = std::move(o.get())"); s.expect(o.get().v == 43 && g_live.size() == 1, "model:Optional.value", "after o = std::move(o.get()) the value changed"); }
+    { En e(TA(44)); e = e.get(); ochk(s, e, true, "Entry after e = e.get()"); s.expect(e.get().v == 44 && g_live.size() == 1, "model:Optional.value", "after e = e.get() the Entry does not hold its value"); }
+    { nop::Result<E, std::string> r(std::string(100, 'r')); r = r.get(); s.expect(r.has_value() && r.get() == std::string(100, 'r'), "model:Result.value", "Result<E,string>: r = r.get() changed the string"); }   // (no r = std::move(r.get()) for std::string: a self-move-assigned string is valid but unspecified)
+    s.end(); }
   static const uint8_t pats[] = {0x00, 0x01, 0x7f, 0xaa, 0xff};
   for (uint8_t pat : pats) {
     auto nm = [&](const char* n) { return fmt("%s/pattern-%02x", n, pat); };
